@@ -1,4 +1,5 @@
 import GrmVerif.Model.YaccBuild
+import GrmVerif.Lemmas.YaccBuild
 import GrmVerif.Model.YaccLex
 import GrmVerif.Extracted
 import GrmVerif.Drive.Util
@@ -102,14 +103,35 @@ def fGrammar (g : IGrammar) : String :=
       s!"{fOpt fStr r.action} {fOpt (fun _ => "A") r.actionSpan} {fSpan r.span}")
   " ".intercalate (hd :: rs ++ ts ++ ps)
 
+/-! ### what the PROPERTY prescribes, read off the AST directly (not through the model of the builder):
+the multiset of productions as (rule name, symbol names, precedence of the `%prec` token, else of the
+LAST token) and the token list in source order with declared precedence and `%avoid_insert` flag -/
+
+def symName : ASym → String
+  | .tok n _ => "t" ++ fStr n
+  | .rule n _ => "r" ++ fStr n
+
+def specProds (a : AST) : String :=
+  let items := a.rules.flatMap (fun r => r.pidxs.filterMap (fun i => (a.prods[i]?).map (fun p =>
+    let pr : Option Prec := match p.prec with
+      | some n => assoc a.precs n
+      | none => (lastTok p.syms).bind (assoc a.precs)
+    s!"{fStr r.name} {p.syms.length} {" ".intercalate (p.syms.map symName)} {fOpt fPrec pr}")))
+  ";".intercalate (items.mergeSort (fun x y => x < y || x == y))
+
+def specToks (a : AST) : String :=
+  ";".intercalate (a.tokens.map (fun t =>
+    s!"{fStr t.1} {fOpt fPrec (assoc a.precs t.1)} {if (a.avoidInsert.getD []).contains t.1 then 1 else 0}"))
+
 def handleBuild (args : List Nat) : String :=
   match args with
   | k :: rest =>
     match (ast.run rest) with
     | some (a, _) =>
       let kind := if k < 3 then Kind.original else if k == 3 then Kind.grmtools else Kind.eco
+      let spec := if k == 4 then "" else s!"\nSpp {specProds a}\nStk {specToks a}"
       match buildGrammar realCfg a kind with
-      | some g => "M " ++ fGrammar g
+      | some g => "M " ++ fGrammar g ++ spec
       | none => "M panic"
     | _ => "bad-request"
   | _ => "bad-request"
